@@ -200,8 +200,9 @@ class FileSplicer:
 
         # ---- loops
         nloops = len(an.loops)
-        whilelets = {int(s.args[0]) for s in subs if s.word == 'whilelet'}
-        midtexts = {}; headtexts = {}
+        whilelets = {int(s.args[0]) for s in subs if s.word in ('whilelet', 'forloop')}
+        forloops = {int(s.args[0]) for s in subs if s.word == 'forloop'}
+        midtexts = {}; headtexts = {}; pretexts = {}
         for s in subs:
             if s.word == 'shape':
                 for a_ in s.args:
@@ -215,8 +216,12 @@ class FileSplicer:
                 L = an.loops[li]
                 t, ids = mark_obligations(s.text); clause_ids += ids
                 if what == 'mid':
-                    # only for loops normalised by `whilelet`: ghost text after the scrutinee has been evaluated
+                    # only for loops normalised by `whilelet`/`forloop`: ghost text after the scrutinee has been evaluated
                     midtexts.setdefault(li, []).append(t)
+                    continue
+                if what == 'pre':
+                    # only for `forloop`: ghost text between the creation of the iterator and the loop
+                    pretexts.setdefault(li, []).append(t)
                     continue
                 if what == 'head' and li in whilelets:
                     headtexts.setdefault(li, []).append(t)
@@ -278,6 +283,21 @@ class FileSplicer:
 
         # ---- N8: `while let PAT = E { B }` -> `loop <spec> { <head> let vx_w = E; if let PAT = vx_w { <mid> B } else { break; } }`
         for li in sorted(whilelets):
+            if li in forloops:
+                # N8: `for PAT in E { B }` over a repository-defined iterator -> Rust's own desugaring with `loop`
+                if li >= nloops or an.loops[li].kind != 'for':
+                    raise SpliceError('lost anchor: fn %s loop %d is not a `for` loop' % (key, li))
+                L = an.loops[li]
+                q = L.kw_si + 1
+                while not src.is_id(q, 'in'): q = src.skip_group(q)
+                pat_txt = src.text_of(L.kw_si + 1, q)
+                iter_e = self.ed.apply(self.text, src.t(q + 1).start, src.t(L.body_open - 1).end)
+                self.ed.drop_range(src.t(q + 1).start, src.t(L.body_open - 1).end)
+                self.ed.replace(src.t(L.kw_si).start, src.t(L.body_open - 1).end, 'let mut vx_it = IntoIterator::into_iter(' + iter_e + ');\n' + '\n'.join(pretexts.get(li, [])) + '\nloop')
+                self.ed.insert(src.t(L.body_open).end, '\n' + '\n'.join(headtexts.get(li, [])) + '\nlet vx_w = vx_it.next();\nif let Some(' + pat_txt + ') = vx_w {\n' + '\n'.join(midtexts.get(li, [])) + '\n')
+                self.ed.insert(src.t(L.body_close).start, '\n} else { break; }\n')
+                applied.append('N8')
+                continue
             if li >= nloops or an.loops[li].kind != 'while' or not src.is_id(an.loops[li].kw_si + 1, 'let'):
                 raise SpliceError('lost anchor: fn %s loop %d is not a `while let`' % (key, li))
             L = an.loops[li]
@@ -292,7 +312,7 @@ class FileSplicer:
             applied.append('N8')
 
         # ---- N16: `?` desugar
-        qs = [k for k in range(it.body_open, it.body_close) if src.is_p(k, '?')]
+        qs = [k for k in range(it.body_open, it.body_close) if src.is_p(k, '?') and (src.t(k - 1).kind == 'ident' or (src.t(k - 1).kind == 'punct' and src.t(k - 1).text in (')', ']')))]
         for s in subs:
             if s.word == 'try':
                 for a_ in s.args:
@@ -415,7 +435,9 @@ class FileSplicer:
                 k = hits[k_ord]
                 rs = self.postfix_start(k - 1)
                 po = k + 2; pc = src.match(po)
-                pre, _, post = s.text.partition('\n----\n')
+                lines_ = s.text.split('\n')
+                cut = next((i_ for i_, l_ in enumerate(lines_) if l_.strip() == '----'), len(lines_))
+                pre = '\n'.join(lines_[:cut]); post = '\n'.join(lines_[cut + 1:])
                 pre, ids1 = mark_obligations(pre); post, ids2 = mark_obligations(post); clause_ids += ids1 + ids2
                 has_arg = pc > po + 1
                 recv_txt = src.text_of(rs, k)
